@@ -126,7 +126,20 @@ def split_items(src):
         kw = ITEM_KEY_RE.match(m[i:i + 400].lstrip())
         kind0 = re.sub(r'\s+', ' ', kw.group('kind')) if kw else '?'
         j = i; depth = 0; end = None
-        if kind0 in ('use', 'const', 'static', 'type'):
+        semi = kind0 in ('use', 'type')
+        if kind0 in ('const', 'static'):
+            # `const X: T = e;` ends at ';'   /   Verus `exec static X: T ensures .. { .. }` ends at its block
+            q = i; d2 = 0
+            while q < n:
+                c = m[q]
+                if c in '([': d2 += 1
+                elif c in ')]': d2 -= 1
+                elif d2 == 0 and c == '=' and m[q:q + 2] not in ('==', '=>') and m[q - 1] not in '=!<>':
+                    semi = True; break
+                elif d2 == 0 and c in '{;':
+                    semi = (c == ';'); break
+                q += 1
+        if semi:
             while j < n:
                 c = m[j]
                 if c in '([{': depth += 1
@@ -149,7 +162,7 @@ def split_items(src):
                     k = close + 1
                     while k < n and m[k].isspace(): k += 1
                     nxt = m[k:k + 16]
-                    if kind0 == 'fn' and (nxt[:1] in tuple(',&|=.<>+-*/?') or re.match(r'(ensures|requires|decreases|invariant|recommends|by|via|opens_invariants|no_unwind|when)\b', nxt)):
+                    if kind0 == 'fn' and (nxt[:1] in tuple(',&|=.<>+-*/?{') or re.match(r'(ensures|requires|decreases|invariant|recommends|by|via|opens_invariants|no_unwind|when)\b', nxt)):
                         j = close + 1; continue      # a brace group inside a spec clause
                     end = close + 1; break
                 j += 1
@@ -354,7 +367,9 @@ def classify_ghost(ann, pin):
         if i == n:
             if p == P: break
             if not fail_back():
-                raise WeaveError('overlay does not erase to the extracted source: source token %r (#%d, line %d) has no counterpart' % (pin[p].t, p, pin[p].line))
+                bp, bi = best
+                ctx = ' '.join(t.t for t in pin[max(0, bp - 6):bp]) + '  >>> ' + ' '.join(t.t for t in pin[bp:bp + 8])
+                raise WeaveError('overlay does not erase to the extracted source; furthest match: source line %d [%s], overlay line %d' % (pin[min(bp, P - 1)].line, ctx, ann[min(bi, n - 1)].line))
             continue
         t = ann[i].t
         if t in CLOSE:
